@@ -46,10 +46,7 @@ structure Res (α : Type) where
   trace : List Ev
   calls : Nat
   out : Option α
-  deriving Repr
-
-instance {α} [DecidableEq α] : DecidableEq (Res α) := fun a b => by
-  cases a; cases b; simp only [Res.mk.injEq]; exact inferInstance
+  deriving DecidableEq, Repr
 
 /-- the wrapped function: outcome of the k-th call (0-based, counted over the whole run) -/
 abbrev Wrapped (α : Type) := Nat → Option α
